@@ -5,7 +5,7 @@ Model: OccaModel/Json.lean (dumpToString with every indentation, the recursive-d
 NUL-terminated byte list, primitive::toString / primitive::load), of the repaired code (fixes F28, FJ1, FJ5).
 Statement of the property, clause by clause:
   (a) parsing the dumped text yields a value equal to the original, for any indentation
-        C24_string_roundtrip, C24_number_roundtrip (the two leaf lemmas), C24_roundtrip_load (any
+        C24_string_roundtrip, C24_number_roundtrip, C24_number_value_preserved (the leaf lemmas), C24_roundtrip_load (any
         whitespace as indentation, any delimiter after the value), C24_roundtrip (json::dump(indent)
         followed by json::parse), C24_fuel_suffices (the model's recursion budget is never the reason),
         C24_reparse_same_text (the value read back prints the same text and has the same hash)
@@ -49,6 +49,29 @@ example : loadStr cQuote false ((dumpStr [34, 92, 10, 0, 255]).drop 1 ++ [44]) [
 theorem C24_number_roundtrip (fuel : Nat) (p : Prim) (h : p.IsInt) (rest : Bytes) (hr : Delim rest) :
     ∃ p', loadPrim (fuel + 1) (p.toStr ++ rest) = (p', rest) ∧ primEq p p' = true ∧ p'.src = p.toStr :=
   loadPrim_toStr fuel p h rest hr
+
+/-- beyond `==`: the number read back has the same mathematical value, typed int32 if it fits and the
+    text has no `L`, else int64, else uint64; the single exception is INT64_MIN, which comes back as the
+    uint64 2^63 (same bits) -/
+theorem C24_number_value_preserved (fuel : Nat) (p : Prim) (h : p.IsInt) (rest : Bytes) (hr : Delim rest) :
+    ∃ p', loadPrim (fuel + 1) (p.toStr ++ rest) = (p', rest)
+      ∧ (p'.val = p.val ∨ (p.ty = .i64 ∧ p.val = -9223372036854775808 ∧ p'.ty = .u64 ∧ p'.val = 9223372036854775808)) := by
+  have hm := isInt_natAbs_lt h
+  have hT := toStr_isInt h
+  have hsuf : (if p.ty.isLong then [76] else ([] : Bytes)) = [] ∨ (if p.ty.isLong then [76] else ([] : Bytes)) = [76] := by
+    cases p.ty.isLong <;> simp
+  have hneg : decide (p.val < 0) = true → 1 ≤ p.val.natAbs := by intro hh; have := of_decide_eq_true hh; omega
+  have hl := loadPrim_int fuel (decide (p.val < 0)) p.val.natAbs _ rest hsuf hr hm hneg
+  have hsel : (if (if p.ty.isLong then [76] else ([] : Bytes)) = [] then 0 else 1) = (if p.ty.isLong then 1 else 0) := by
+    cases p.ty.isLong <;> simp
+  simp only [decide_eq_true_eq, hsel] at hl
+  refine ⟨_, by rw [hT]; exact hl, ?_⟩
+  rcases reload_value p h with hv | ⟨h1, h2, h3⟩
+  · exact Or.inl hv
+  · right
+    refine ⟨h1, h2, ?_, ?_⟩
+    · show (reloaded p.val.natAbs (if p.ty.isLong then 1 else 0) (decide (p.val < 0))).1 = _; rw [h3]
+    · show (reloaded p.val.natAbs (if p.ty.isLong then 1 else 0) (decide (p.val < 0))).2 = _; rw [h3]
 
 example : (⟨.u64, 18446744073709551615, []⟩ : Prim).IsInt := isInt_of_isIntB (by decide)
 example : (⟨.i8, -128, []⟩ : Prim).IsInt := isInt_of_isIntB (by decide)
